@@ -75,19 +75,39 @@ pub struct InputCfg {
     pub conds: Vec<(u64, CondSpec)>,
 }
 
+/// `<key index>:<mod mask>` of a preset.
+pub type KeyMod = (usize, u8);
+
+/// One item of an `act` block handed to `ActionBind::to`.
 #[derive(Clone, Debug)]
-pub enum Step {
-    Act(usize),
-    AMod(u64, ModSpec),
-    ACond(u64, CondSpec),
+pub enum Item {
     In(InputCfg),
+    /// north east south west
+    Cardinal([KeyMod; 4]),
+    /// positive negative
+    Bidir([KeyMod; 2]),
+    /// 0 = left, 1 = right
+    Stick(u8),
+}
+
+/// The lines from one `act <a>` line up to the next `act`/`ctx`/first op.
+#[derive(Clone, Debug)]
+pub struct ActBlock {
+    pub a: usize,
+    /// How the items are handed to the API (0..5).
+    pub route: u8,
+    pub emods: Vec<(u64, ModSpec)>,
+    pub econds: Vec<(u64, CondSpec)>,
+    pub amods: Vec<(u64, ModSpec)>,
+    pub aconds: Vec<(u64, CondSpec)>,
+    pub items: Vec<Item>,
 }
 
 #[derive(Clone, Debug, Default)]
 pub struct CtxCfg {
     /// `None` = any gamepad, `Some(g)` = gamepad handle.
     pub pad: Option<u32>,
-    pub steps: Vec<Step>,
+    pub blocks: Vec<ActBlock>,
 }
 
 #[derive(Debug, Default)]
@@ -102,6 +122,16 @@ pub enum LifeOp {
     Remove(u32, usize),
     Despawn(u32),
     Rebuild,
+}
+
+#[derive(Clone, Copy, Debug, PartialEq)]
+pub enum InjectMode {
+    /// `ButtonInput::press/release` at the op line.
+    Direct,
+    /// `KeyboardInput` / `MouseButtonInput` events sent before the next frame.
+    Events,
+    /// `ButtonInput::press/release` from a system in `First` of the next frame.
+    First,
 }
 
 #[derive(Clone, Copy, Debug, PartialEq)]
@@ -128,7 +158,7 @@ pub enum Op {
     Dt(f64),
     Speed(f32),
     Pause(bool),
-    Inject(bool),
+    Inject(InjectMode),
     React(u64, u64, LifeOp),
     Post(LifeOp),
     Frame,
@@ -214,6 +244,23 @@ fn parse_input(t: &[&str]) -> Option<InputSpec> {
         ["wheel", m] => InputSpec::Wheel(parse_idx(m, MAX_MODMASK)? as u8),
         ["padbtn", b] => InputSpec::PadBtn(parse_idx(b, MAX_PADBTN)?),
         ["padaxis", x] => InputSpec::PadAxis(parse_idx(x, MAX_PADAXIS)?),
+        _ => return None,
+    })
+}
+
+fn key_mod(s: &str) -> Option<KeyMod> {
+    let (k, m) = s.split_once(':')?;
+    Some((parse_idx(k, MAX_KEY)?, parse_idx(m, MAX_MODMASK)? as u8))
+}
+
+fn parse_preset(t: &[&str]) -> Option<Item> {
+    Some(match t {
+        ["cardinal", n, e, s, w] => {
+            Item::Cardinal([key_mod(n)?, key_mod(e)?, key_mod(s)?, key_mod(w)?])
+        }
+        ["bidir", p, n] => Item::Bidir([key_mod(p)?, key_mod(n)?]),
+        ["stick", "0"] => Item::Stick(0),
+        ["stick", "1"] => Item::Stick(1),
         _ => return None,
     })
 }
@@ -317,8 +364,9 @@ fn parse_op(t: &[&str]) -> Option<Op> {
         ["dt", q] => Op::Dt(nonneg(q)?.f64()),
         ["speed", q] => Op::Speed(nonneg(q)?.f32()),
         ["pause", p] => Op::Pause(parse_flag(p)?),
-        ["inject", "direct"] => Op::Inject(false),
-        ["inject", "events"] => Op::Inject(true),
+        ["inject", "direct"] => Op::Inject(InjectMode::Direct),
+        ["inject", "events"] => Op::Inject(InjectMode::Events),
+        ["inject", "first"] => Op::Inject(InjectMode::First),
         ["react", f, k, rest @ ..] => Op::React(parse_uint(f)?, parse_uint(k)?, parse_life(rest)?),
         ["post", rest @ ..] => Op::Post(parse_life(rest)?),
         ["frame"] => Op::Frame,
@@ -359,9 +407,8 @@ struct Open {
     // App scenario.
     ctxs: HashMap<(usize, u8), CtxCfg>,
     cur_ctx: Option<(usize, u8)>,
-    has_act: bool,
-    /// Index of the current input within the current context's steps.
-    cur_in: Option<usize>,
+    /// The previous configuration line was the `act` line of the current block.
+    after_act: bool,
     ops: Vec<(String, Op)>,
     spawned: HashSet<u32>,
     live_pads: HashSet<u32>,
@@ -378,8 +425,7 @@ impl Open {
             kind: Kind::Undecided,
             ctxs: HashMap::new(),
             cur_ctx: None,
-            has_act: false,
-            cur_in: None,
+            after_act: false,
             ops: Vec::new(),
             spawned: HashSet::new(),
             live_pads: HashSet::new(),
@@ -398,9 +444,38 @@ impl Open {
         }
     }
 
-    fn steps(&mut self) -> Option<&mut Vec<Step>> {
+    /// The current `act` block.
+    fn block(&mut self) -> Option<&mut ActBlock> {
         let key = self.cur_ctx?;
-        self.ctxs.get_mut(&key).map(|ctx| &mut ctx.steps)
+        self.ctxs.get_mut(&key)?.blocks.last_mut()
+    }
+
+    /// Adds an item to the current block.
+    fn push_item(&mut self, item: Item) -> Option<()> {
+        let block = self.block()?;
+        let preset = !matches!(item, Item::In(_));
+        match block.route {
+            // Tuples of 1..8 items.
+            1 | 2 if block.items.len() >= 8 => return None,
+            // Plain inputs only.
+            4 | 5 if preset => return None,
+            _ => (),
+        }
+        block.items.push(item);
+        Some(())
+    }
+
+    /// The current input: the last item of the block, if it is an `in` item.
+    fn input(&mut self) -> Option<&mut InputCfg> {
+        let block = self.block()?;
+        if matches!(block.route, 4 | 5) {
+            // Plain inputs only.
+            return None;
+        }
+        match block.items.last_mut()? {
+            Item::In(input) => Some(input),
+            _ => None,
+        }
     }
 
     fn config_line(&mut self, t: &[&str]) -> Option<()> {
@@ -409,6 +484,7 @@ impl Open {
             // Configuration must precede the first operation.
             return None;
         }
+        let after_act = std::mem::replace(&mut self.after_act, false);
         match t {
             ["ctx", c, v, sel @ ..] => {
                 let key = (parse_idx(c, MAX_CTX)?, parse_idx(v, MAX_VARIANT)? as u8);
@@ -424,62 +500,75 @@ impl Open {
                     key,
                     CtxCfg {
                         pad,
-                        steps: Vec::new(),
+                        blocks: Vec::new(),
                     },
                 );
                 self.cur_ctx = Some(key);
-                self.has_act = false;
-                self.cur_in = None;
             }
             ["act", a] => {
                 let a = parse_idx(a, MAX_ACT)?;
-                self.steps()?.push(Step::Act(a));
-                self.has_act = true;
-                self.cur_in = None;
+                let key = self.cur_ctx?;
+                self.ctxs.get_mut(&key)?.blocks.push(ActBlock {
+                    a,
+                    route: 0,
+                    emods: Vec::new(),
+                    econds: Vec::new(),
+                    amods: Vec::new(),
+                    aconds: Vec::new(),
+                    items: Vec::new(),
+                });
+                self.after_act = true;
+            }
+            ["route", r] => {
+                let route = parse_idx(r, 5)? as u8;
+                if !after_act {
+                    return None;
+                }
+                self.block()?.route = route;
+            }
+            ["emod", id, rest @ ..] => {
+                let (id, spec) = (parse_uint(id)?, parse_mod(rest)?);
+                let block = self.block()?;
+                if !block.items.is_empty() {
+                    return None;
+                }
+                block.emods.push((id, spec));
+            }
+            ["econd", id, rest @ ..] => {
+                let (id, spec) = (parse_uint(id)?, parse_cond(rest)?);
+                let block = self.block()?;
+                if !block.items.is_empty() {
+                    return None;
+                }
+                block.econds.push((id, spec));
             }
             ["amod", id, rest @ ..] => {
                 let (id, spec) = (parse_uint(id)?, parse_mod(rest)?);
-                if !self.has_act {
-                    return None;
-                }
-                self.steps()?.push(Step::AMod(id, spec));
+                self.block()?.amods.push((id, spec));
             }
             ["acond", id, rest @ ..] => {
                 let (id, spec) = (parse_uint(id)?, parse_cond(rest)?);
-                if !self.has_act {
-                    return None;
-                }
-                self.steps()?.push(Step::ACond(id, spec));
+                self.block()?.aconds.push((id, spec));
             }
             ["in", rest @ ..] => {
                 let spec = parse_input(rest)?;
-                if !self.has_act {
-                    return None;
-                }
-                let steps = self.steps()?;
-                steps.push(Step::In(InputCfg {
+                self.push_item(Item::In(InputCfg {
                     spec,
                     mods: Vec::new(),
                     conds: Vec::new(),
-                }));
-                let index = steps.len() - 1;
-                self.cur_in = Some(index);
+                }))?;
+            }
+            ["preset", rest @ ..] => {
+                let item = parse_preset(rest)?;
+                self.push_item(item)?;
             }
             ["imod", id, rest @ ..] => {
                 let (id, spec) = (parse_uint(id)?, parse_mod(rest)?);
-                let index = self.cur_in?;
-                let Step::In(input) = &mut self.steps()?[index] else {
-                    return None;
-                };
-                input.mods.push((id, spec));
+                self.input()?.mods.push((id, spec));
             }
             ["icond", id, rest @ ..] => {
                 let (id, spec) = (parse_uint(id)?, parse_cond(rest)?);
-                let index = self.cur_in?;
-                let Step::In(input) = &mut self.steps()?[index] else {
-                    return None;
-                };
-                input.conds.push((id, spec));
+                self.input()?.conds.push((id, spec));
             }
             _ => return None,
         }
@@ -525,7 +614,8 @@ impl Open {
 
     fn line(&mut self, t: &[&str]) -> Option<()> {
         match t[0] {
-            "ctx" | "act" | "amod" | "acond" | "in" | "imod" | "icond" => self.config_line(t),
+            "ctx" | "act" | "route" | "emod" | "econd" | "amod" | "acond" | "in" | "preset"
+            | "imod" | "icond" => self.config_line(t),
             "u" | "umod" | "ucond" | "uact" | "utick" | "uapply" | "ueval" => self.unit_line(t),
             _ => self.op_line(t),
         }
